@@ -158,8 +158,24 @@ func TestC11(t *testing.T) {
 			checkModSum(t, rec, genU64().Draw(t, "x"), genU64().Draw(t, "y"))
 		default:
 			b := rapid.SliceOfN(rapid.Byte(), 0, 64).Draw(t, "bytes")
+			label := "hash"
+			if rapid.IntRange(0, 3).Draw(t, "longKey") == 0 {
+				// keys of any length are hashed (values of several KiB are used as keys nowhere in the
+				// tree, but nothing bounds a key): lengths around powers of two and well beyond
+				n := rapid.SampledFrom([]int{65, 127, 128, 129, 255, 256, 257, 1023, 1024, 1025, 4096, 4097, 65536, 70001}).Draw(t, "keyLen")
+				long := make([]byte, n)
+				for i := range long {
+					long[i] = byte(i * 31)
+					if len(b) > 0 {
+						long[i] += b[i%len(b)]
+					}
+				}
+				b, label = long, "hash-long-key"
+			}
 			h := chord.Hash(b)
-			rec.Case(len(b) > 0, fmt.Sprintf("H %x", b), func() any { return map[string]any{"fn": "Hash", "bytes": fmt.Sprintf("%x", b), "hash": h} }, "hash")
+			rec.Case(len(b) > 0, fmt.Sprintf("H %d %x", len(b), b[:min(len(b), 40)]), func() any {
+				return map[string]any{"fn": "Hash", "key_bytes": len(b), "first_bytes": fmt.Sprintf("%x", b[:min(len(b), 40)]), "hash": h}
+			}, label)
 			if h >= 1<<48 {
 				rec.Fail(t, "hash-out-of-range", map[string]any{"bytes": fmt.Sprintf("%x", b), "hash": h}, "Hash(%x)=%d >= 2^48", b, h)
 			}
